@@ -163,9 +163,9 @@ func init() {
 		Assumptions: []string{"texts are valid UTF-8 (the stated domain)"},
 		Bound: func(tier string) string {
 			if tier == "thorough" {
-				return "L = 3 for all positions/forms/channels (33 824 texts x 78); L = 4 for content in all forms and channels (1 048 576 texts x 15); every token at every offset B-4..B+1 for B in 16..4096 (content: all forms and channels; other positions: untagged via the methods), multi-byte/quote/backslash tokens at 8192 and 65536; every JSON decode is followed by two unrelated decodes before the comparison; ten further tokens (bidi isolates and overrides, zero-width space, BOM, NEL, NBSP, U+2029, ALM, a tag character) in texts of length <= 2 and in the boundary family; forms with exactly one untagged and one tagged entry"
+				return "L = 3 for all positions/forms/channels (33 824 texts x 78); L = 4 for content in all forms and channels (1 048 576 texts x 15); every token at every offset B-4..B+1 for B in 16..4096 (content: all forms and channels; other positions: untagged via the methods), multi-byte/quote/backslash tokens at 8192 and 65536; every JSON decode is followed by two unrelated decodes before the comparison; ten further tokens (bidi isolates and overrides, zero-width space, BOM, NEL, NBSP, U+2029, ALM, a tag character) in texts of length <= 2 and in the boundary family; forms with exactly one untagged and one tagged entry; families added after round 5: DESIGN.md 8.11"
 			}
-			return "L = 3 for all positions/forms/channels (33 824 texts x 78); every token at every offset B-4..B+1 for B in 16..4096 (content: all forms and channels; other positions: untagged via the methods), multi-byte/quote/backslash tokens at 8192 and 65536; every JSON decode is followed by two unrelated decodes before the comparison; ten further tokens (bidi isolates and overrides, zero-width space, BOM, NEL, NBSP, U+2029, ALM, a tag character) in texts of length <= 2 and in the boundary family; forms with exactly one untagged and one tagged entry"
+			return "L = 3 for all positions/forms/channels (33 824 texts x 78); every token at every offset B-4..B+1 for B in 16..4096 (content: all forms and channels; other positions: untagged via the methods), multi-byte/quote/backslash tokens at 8192 and 65536; every JSON decode is followed by two unrelated decodes before the comparison; ten further tokens (bidi isolates and overrides, zero-width space, BOM, NEL, NBSP, U+2029, ALM, a tag character) in texts of length <= 2 and in the boundary family; forms with exactly one untagged and one tagged entry; families added after round 5: DESIGN.md 8.11"
 		},
 		DeadlineQuick: 5 * time.Minute, DeadlineThorough: 40 * time.Minute,
 		Run: c06Run,
